@@ -112,6 +112,29 @@ def main(argv):
         print("selftest %s: %d cases x %d configurations: %s%s" % (prop, len(runs[labels[0]]) if labels else 0, len(labels), "IDENTICAL" if ok else "MISMATCH", " (%d case errors)" % errs if errs else ""))
         if not ok or errs:
             bad += 1
+    # simulator (team of one) vs real libgomp (one thread): bit-identical outputs
+    if "C10" in args.props.split(","):
+        import tempfile
+
+        d = tempfile.mkdtemp(prefix="xcheck_")
+        outs = {}
+        for variant in ("plain", "sim", "simtrace"):
+            f = os.path.join(d, variant + ".json")
+            p = subprocess.run([sys.executable, "-m", "cidersim.xcheck", variant, f], capture_output=True, text=True)
+            if p.returncode != 0 or not os.path.exists(f):
+                print("HARNESS-ERROR xcheck %s: %s" % (variant, p.stderr[-400:]))
+                bad += 1
+                continue
+            outs[variant] = json.load(open(f))
+        if len(outs) == 3:
+            keys = sorted(outs["plain"])
+            diff = [k for k in keys if not (outs["plain"][k] == outs["sim"].get(k) == outs["simtrace"].get(k))]
+            print("xcheck: %d outputs, plain(-O2, libgomp, 1 thread) vs sim/simtrace(team 1): %s" % (len(keys), "BIT-IDENTICAL" if not diff else "DIFFER at %s" % diff[:5]))
+            if diff:
+                bad += 1
+        import shutil
+
+        shutil.rmtree(d, ignore_errors=True)
     if bad:
         print("HARNESS-ERROR selftest: nondeterminism detected")
         return 2
